@@ -82,7 +82,13 @@ pub fn dump_all<'tcx>(tcx: TyCtxt<'tcx>) -> (Vec<J>, Vec<J>) {
                         let fty = tcx.type_of(f.did).instantiate_identity().skip_norm_wip();
                         fields.push(J::O(vec![("name", s(f.name.to_string())), ("ty", s(ty_str(fty)))]));
                     }
-                    variants.push(J::O(vec![("name", s(v.name.to_string())), ("fields", J::A(fields))]));
+                    // the discriminant: `Relative(i)` = i after the last explicit one; an enum whose variants are all
+                    // Relative(position) numbers them 0, 1, 2 .. in declaration order
+                    let discr = match v.discr {
+                        ty::VariantDiscr::Relative(i) => s(format!("rel:{}", i)),
+                        ty::VariantDiscr::Explicit(_) => s("explicit"),
+                    };
+                    variants.push(J::O(vec![("name", s(v.name.to_string())), ("fields", J::A(fields)), ("discr", discr)]));
                 }
                 let selfty = tcx.type_of(did).instantiate_identity().skip_norm_wip();
                 let mut im = vec![];
